@@ -147,6 +147,8 @@ func (r *generateReader) ReadByte() (byte, error) {
 	if r.si >= len(r.s) {
 		r.si = 0
 		r.cur += r.step
+		// A backslash at the very end of the template escapes nothing in the next line.
+		r.escape = false
 
 		r.eof = r.cur > r.end || r.cur < 0
 		return '\n', nil
